@@ -114,3 +114,27 @@ pub fn step_named_on(spec: &StateSpec, name: &str) -> Result<StateSpec, (String,
 pub fn registry_names() -> Vec<String> {
     with_machine(|m| m.names())
 }
+
+/// Crash-only execution of a program (used to confirm journalled cases): `mode` = "step"
+/// (envelope-monitored stepping) or "run" (PushInterpreter::run).
+pub fn exec_program_for_replay(state: &StateSpec, max_steps: usize, mode: &str) -> Result<(), String> {
+    let (mut st, _) = state.build();
+    let r = guarded(|| {
+        with_machine(|m| {
+            if mode == "run" {
+                let _ = pushr::push::interpreter::PushInterpreter::run(&mut st, &mut m.iset);
+            } else {
+                for _ in 0..max_steps {
+                    crate::envelope::clamp_sizes(&mut st);
+                    if m.step(&mut st) {
+                        break;
+                    }
+                    if crate::envelope::outside(&st) {
+                        break;
+                    }
+                }
+            }
+        })
+    });
+    r.map_err(|(loc, msg)| format!("panic at {}: {}", loc, msg))
+}
